@@ -495,6 +495,20 @@ def _run_doc(case):
     nt = bool(case.get("nt"))
     size = float(case["size"])
     vertical = font["vertical"]
+    inv = case.get("inv")
+    if inv:
+        t = case["texts"][0]
+        a, b = t[:inv["pos"]].encode(font["codec"]), t[inv["pos"]:].encode(font["codec"])
+        try:
+            cm = CMapDB.get_cmap(font["enc"])
+            ca, cb, call = list(cm.decode(a)), list(cm.decode(b)), list(cm.decode(a + inv["pair"] + b))
+        except Exception as e:
+            return Outcome(classes, nt, fail="get_cmap(%r).decode raised %s: %s" % (font["enc"], type(e).__name__, e))
+        # the undefined character may be reported as CID 0 (notdef) or not at all
+        if call != ca + cb and call != ca + [0] + cb:
+            return Outcome(classes, nt, fail="%s: invalid pair %r between %r and %r: CIDs %r, expected %r + [notdef] + %r" % (
+                font["enc"], inv["pair"], a, b, call, ca, cb))
+        nt = True
     # ---- expected glyph list
     exp = []
     for si, data in enumerate(case["strings"]):
@@ -849,8 +863,20 @@ def predef_cases(draw, base, codec, coll):
     desc = {"enc": name, "codec": codec, "texts": texts, "size": size, "tu": tu_entries,
             "W": _s(w_arr), "W2": _s(w2_arr),
             "DW": font["DW"], "DW2": font["DW2"]}
+    # An invalid code between valid ones (ISO 32000-1 9.7.6.3): the lead byte of a two-byte character followed by a
+    # byte below 0x40, which is a trail byte in none of the legacy double-byte encodings.  The first byte matches a
+    # two-byte codespace range only, so two bytes are consumed (as an undefined character) and segmentation of the rest
+    # goes on as if the pair were not there.
+    inv = None
+    if codec not in ("utf-16-be", "utf-8", "utf-32-be") and draw(st.integers(0, 2)) == 0:
+        two = [ch for t in texts for ch in t if len(ch.encode(codec)) == 2]
+        if two and texts[0]:
+            lead = rnd.choice(two).encode(codec)[0]
+            pos = rnd.randint(0, len(texts[0]))
+            inv = {"pos": pos, "pair": bytes([lead, rnd.choice([0x20, 0x0A, 0x30, 0x39, 0x3F, 0x00])])}
+            classes.append("predef-invalid-pair")
     return {"mode": "doc", "pdf": pdf, "font": font, "strings": strings, "texts": texts, "size": size, "x": x, "y": y,
-            "classes": sorted(set(classes)), "nt": nt, "desc": desc}
+            "classes": sorted(set(classes)), "nt": nt, "desc": desc, "inv": inv}
 
 
 @st.composite
